@@ -1,6 +1,7 @@
 """C03 — see units/loop_common.py (the sampling loop under contract) and DESIGN.md."""
 from lib.unit import *
 from units import loop_common as L
+from units import entry_common as E
 
 
 def build(S: Sources) -> Unit:
@@ -9,7 +10,7 @@ def build(S: Sources) -> Unit:
     return Unit(
         property_id="C03",
         verus=vfiles,
-        kani=L.loop_kani("C03"),
+        kani=[L.loop_kani("C03"), E.entry_kani("C03", only={"thread_counts_two"})],
         build_errors=errs,
         undecided_clauses=L.LOOP_UNDECIDED + EXTRA_UNDECIDED,
         assumptions=L.LOOP_ASSUMPTIONS,
